@@ -371,15 +371,18 @@ Proof. apply (proj1 (list_eqb_spec Z.eqb Z.eqb_eq a b)). Qed.
 
 Lemma reported_sound demand unk logs msgs : reported demand unk logs msgs = true -> unk <> [] ->
   (1 <= demand -> new_message logs msgs = true)
-  /\ (2 <= demand -> lenZ unk <= 5 -> forall x, In x unk -> named logs x = true).
+  /\ (2 <= demand -> exists x, In x unk /\ named logs x = true)
+  /\ (3 <= demand -> lenZ unk <= 5 -> forall x, In x unk -> named logs x = true).
 Proof.
   unfold reported. destruct unk as [|u r]; [congruence|]. intros H _.
-  apply andb_true_iff in H. destruct H as [H1 H2]. split.
+  rewrite !andb_true_iff in H. destruct H as [[H1 H2] H3]. split; [|split].
   - intros D. apply orb_true_iff in H1. destruct H1 as [H1|H1]; [apply Z.ltb_lt in H1; lia|exact H1].
-  - intros D L x Hx. rewrite !orb_true_iff in H2. destruct H2 as [[H2|H2]|H2].
-    + apply Z.ltb_lt in H2. lia.
-    + apply Z.ltb_lt in H2. lia.
-    + rewrite forallb_forall in H2. now apply H2.
+  - intros D. apply orb_true_iff in H2. destruct H2 as [H2|H2]; [apply Z.ltb_lt in H2; lia|].
+    apply existsb_exists in H2. exact H2.
+  - intros D L x Hx. rewrite !orb_true_iff in H3. destruct H3 as [[H3|H3]|H3].
+    + apply Z.ltb_lt in H3. lia.
+    + apply Z.ltb_lt in H3. lia.
+    + rewrite forallb_forall in H3. now apply H3.
 Qed.
 
 Lemma holds_unknown_sound k e o msgs : holds_unknown k = true -> c_ref k = Some (e, o, msgs) ->
@@ -414,7 +417,7 @@ Lemma holds_cli_sound k : holds_cli k = true ->
   (* unknown entries are ignored and reported *)
   /\ holds_unknown k = true.
 Proof.
-  unfold holds_cli. rewrite !andb_true_iff. intros [[[[H1 H2] H3] H4] _].
+  unfold holds_cli. rewrite !andb_true_iff. intros [[[[[_ H1] H2] H3] H4] _].
   repeat split.
   - intros B. rewrite B in H1. now apply Z.eqb_eq.
   - rewrite H, H0 in H1. rewrite H5 in H1. apply andb_true_iff in H1. now apply Z.eqb_eq.
